@@ -1,6 +1,6 @@
 (* Config.v — the node-group options record (controller.NodeGroupOptions) as the validator sees it, and the
-   primitives the GENERATED validation rules (Generated.v, translated from ValidateNodeGroup on every run) are
-   written in.  Definitions only; nothing here is generated and nothing here is proved.
+   primitives the validation rules — the hand-written model (`model_rules`, SpecConfig.v) and the list re-derived
+   from ValidateNodeGroup on every run (`gen_rules`, Generated.v) — are written in.  Definitions only; nothing here is generated and nothing here is proved.
 
    What is modelled by hand here and tied to the code by the C16 differential grid:
      * `dur_value`   = the lazily caching accessors SoftDeleteGracePeriodDuration() / HardDeleteGracePeriodDuration() /
@@ -16,6 +16,12 @@ From Esc Require Export Base.
 Open Scope Z_scope.
 
 Definition slen (s : string) : Z := Z.of_nat (String.length s).
+
+(* What an ITEM of coq/Generated.v (a constant, a tag table, the documented keys, the default taint effect, the rule
+   list) is defined as when `harness gen` could not derive it from the source: the rest of the file is produced
+   normally, and no statement about the missing item typechecks (same idea as `gen_untranslated_marker` of GenCtlBase.v).
+   The names of the missing items and the translator's messages are listed in `gen_untranslated`. *)
+Inductive gen_item_untranslated := GenItemUntranslated.
 
 (* a duration-valued option: the raw text of the option and what time.ParseDuration returns for it *)
 Record dur := { d_raw : string; d_parse : option Z }.
